@@ -15,7 +15,7 @@ EXPLANATION = (
     "R18a: error construction in the loaders is well formed - %-format and str.format arity matches, `%` is applied to the string and not to the raise call's first argument, "
     "and every attribute read on a value whose type is definitely a builtin container / a repo class exists on that type. R18b (call graph + handlers): the explicit raise and assert "
     "sites that can escape each loader entry point (not inside a try whose handler catches and converts them, anywhere along the call chain) raise the loader's dedicated error class. "
-    "R18c: no validation branch is dead because it compares a loop variable over a literal list with a string outside that list. Totality over all malformed files "
+    "R18c: no validation branch is dead because it compares a loop variable over a literal list with a string outside that list. R18d: the cycle check of the framework sees every parameter -> parameter dependency: the edge is added whatever the population types of the two parameters are, the acyclicity test runs after all parameters were scanned and raises InvalidFramework. Totality over all malformed files "
     "(implicit exceptions raised inside pandas/openpyxl) and runnability of accepted frameworks are not decided."
 )
 
@@ -28,6 +28,7 @@ def run(ctx):
     ctx.each(r18a, ctx, repo, T)
     ctx.each(r18b, ctx, repo, T, cg)
     ctx.each(r18c, ctx, repo)
+    ctx.each(r18d, ctx, repo)
 
 
 # ---------------------------------------------------------------------------------------------- R18a
@@ -449,3 +450,35 @@ def r18c(ctx, repo):
                     else:
                         ctx.ok("R18c", fi, "`%s` can hold" % ast.unparse(c), c)
     ctx.require(n >= 3, "R18c: fewer comparisons of literal-list loop variables (%d) than confirmed (3)" % n)
+
+
+def _edge_guard_ok(test):
+    """A condition on the dependency edge may look at the dependency's name, the parameter's own name and the derivative flag - nothing else (population types, aggregation kind ...)."""
+    names = {n.id for n in ast.walk(test) if isinstance(n, ast.Name)}
+    if not names <= {"dep", "par_name", "self", "deps"}:
+        return False
+    for n in ast.walk(test):
+        if isinstance(n, ast.Subscript) and isinstance(n.value, ast.Attribute) and n.value.attr in ("at", "loc") and isinstance(n.slice, ast.Tuple):
+            col = n.slice.elts[-1]
+            if not (isinstance(col, ast.Constant) and col.value == "is derivative"):
+                return False
+    return True
+
+
+def r18d(ctx, repo):
+    ctx.rule("R18d", "circular parameter dependencies are rejected: G.add_edge(dep, par) in _validate_parameters is conditional only on 'dep is a parameter', 'dep is not a derivative' and 'dep is not par itself'; the DAG test comes after the scan and raises InvalidFramework")
+    fi = repo.func("framework", "ProjectFramework._validate_parameters")
+    edges = [c for c in own_nodes(fi.node) if isinstance(c, ast.Call) and isinstance(c.func, ast.Attribute) and c.func.attr == "add_edge"]
+    ctx.require(len(edges) >= 1, "R18d: dependency edge not found in _validate_parameters")
+    loops = [l for l in own_nodes(fi.node) if isinstance(l, ast.For) and isinstance(l.target, ast.Name) and l.target.id == "dep"]
+    ctx.require(len(loops) >= 1, "R18d: `for dep in deps` not found in _validate_parameters")
+    for c in edges:
+        loop = [l for l in loops if any(x is c for x in ast.walk(l))]
+        conds = [(t, pol) for t, pol in guards_of(c, stop=loop[0] if loop else None)]
+        bad = [(t, pol) for t, pol in conds if not _edge_guard_ok(t)]
+        ctx.check(not bad, "R18d", fi, enclosing_stmt(c), "dependency edge added for every non-derivative parameter dependency", "the dependency edge is only added when `%s` is %s: a cycle through such a pair of parameters is never seen by the cycle check, the framework is accepted and fails later with an internal error" % (ast.unparse(bad[0][0])[:80] if bad else "", bad[0][1] if bad else ""))
+        must = [t for t, pol in conds if pol and ast.unparse(t).endswith("in self.pars.index")]
+        ctx.check(bool(must), "R18d", fi, enclosing_stmt(c), "edge added for parameter dependencies", "the dependency edge is not added under `dep in self.pars.index`", stmt_text="edge-under-pars-index")
+    dag = [s_ for s_ in own_nodes(fi.node) if isinstance(s_, ast.If) and "is_directed_acyclic_graph" in ast.unparse(s_.test)]
+    ok = bool(dag) and isinstance(dag[0].test, ast.UnaryOp) and isinstance(dag[0].test.op, ast.Not) and any(isinstance(r, ast.Raise) and r.exc is not None and "InvalidFramework" in ast.unparse(r.exc) for r in ast.walk(dag[0])) and all(dag[0].lineno > l.end_lineno for l in loops) and not K.enclosing_loops(dag[0]) and not [g for g in guards_of(dag[0])]
+    ctx.check(bool(ok), "R18d", fi, dag[0] if dag else fi.node, "acyclicity tested unconditionally after the scan, refusal uses InvalidFramework", "the cycle test no longer runs unconditionally after all parameters were scanned, or does not raise InvalidFramework", stmt_text="dag-test")
